@@ -255,12 +255,36 @@ func Run(m *xpath.Machine, t *Tree) (o Outcome) { return RunCtx(context.Backgrou
 
 // RunCtx: as Run, with the Go context the caller hands to NewCtxFromCurrent.
 func RunCtx(gctx context.Context, m *xpath.Machine, t *Tree) (o Outcome) {
+	return RunKeep(gctx, m, t)()
+}
+
+// RunKeep runs the machine and keeps the result the library returned: the function it gives back reads that
+// result (again, each time it is called).  A result that was returned belongs to the caller.
+func RunKeep(gctx context.Context, m *xpath.Machine, t *Tree) func() Outcome {
+	var res *xpath.Result
+	var runPanic string
+	func() {
+		defer func() {
+			if r := recover(); r != nil {
+				runPanic = fmt.Sprint(r)
+			}
+		}()
+		res = xpath.NewCtxFromCurrent(gctx, m, t.Root()).SetDebug(t.Debug).Run()
+	}()
+	return func() Outcome {
+		if runPanic != "" {
+			return Outcome{Panic: runPanic}
+		}
+		return readResult(res, t)
+	}
+}
+
+func readResult(res *xpath.Result, t *Tree) (o Outcome) {
 	defer func() {
 		if r := recover(); r != nil {
 			o.Panic = fmt.Sprint(r)
 		}
 	}()
-	res := xpath.NewCtxFromCurrent(gctx, m, t.Root()).SetDebug(t.Debug).Run()
 	if e := res.GetError(); e != nil {
 		o.Err = e.Error()
 		s := t.Sentinel
